@@ -18,7 +18,7 @@ PROPERTY = "C09"
 LEVEL = "exploration"
 USES_JAX = True
 CLEAR_EVERY = 8
-BUDGET_S = {"quick": 900, "thorough": 3000}
+BUDGET_S = {"quick": 3600, "thorough": 14400}  # generous wall-clock guards (shared machine); CPU time is what is reported
 RULE = (
     "complete product routine (24: the 11 step-granular off-policy routines of vlib/drivers.py, REINFORCE, actor-critic, "
     "A2C, PPO, 5 tabular learners, CMA-ES, SMT, active-MT, UTS) x training seed x 2 scripts (each with a termination and a "
